@@ -978,13 +978,14 @@ Proof.
     + split; [exact I|]. split; [|exact I]. split; [exact Hb|]. split; [now apply finite_notnan64|exact Hz].
 Qed.
 (* a slot of a list of such values and arrays of them *)
-Definition goodca (o : popts) (zf zd : Z) (v : av) : Prop := goodc o zf zd v \/ exists ty n, v = VArr ty n.
+Definition goodca (o : popts) (zf zd : Z) (v : av) : Prop :=
+  goodc o zf zd v \/ (exists ty n, v = VArr ty n) \/ exists y, v = VSpc y.
 Lemma goodca_sa o zf zd v : goodca o zf zd v -> sa v.
-Proof. intros [H|(ty & n & ->)]; [apply scalar_sa; apply (goodc_facts o zf zd v H)|exact I]. Qed.
+Proof. intros [H|[(ty & n & ->)|(y & ->)]]; [apply scalar_sa; apply (goodc_facts o zf zd v H)|exact I|exact I]. Qed.
 Lemma goodca_inrv o zf zd v : goodca o zf zd v -> inrv zf zd v.
-Proof. intros [H|(ty & n & ->)]; [apply (goodc_facts o zf zd v H)|exact I]. Qed.
+Proof. intros [H|[(ty & n & ->)|(y & ->)]]; [apply (goodc_facts o zf zd v H)|exact I|exact I]. Qed.
 Lemma goodca_mk o zf zd k z : goodca o zf zd (mk k z) -> goodc o zf zd (mk k z).
-Proof. intros [H|(ty & n & E)]; [exact H|destruct k; discriminate]. Qed.
+Proof. intros [H|[(ty & n & E)|(y & E)]]; [exact H|destruct k; discriminate|destruct k; discriminate]. Qed.
 
 Lemma goodc_mk o zf zd k z : goodc o zf zd (mk k z) -> small_k k z.
 Proof. intros [H|[H|[_ H]]]; destruct k; cbn in H; tauto. Qed.
